@@ -1012,11 +1012,14 @@ func commonName(cc *ssa.CallCommon) string {
 	if fn := cc.StaticCallee(); fn != nil {
 		if fn.Synthetic != "" && fn.Object() != nil {
 			if f, ok := fn.Object().(*types.Func); ok {
+				if alias, ok := identAlias[f.Origin()]; ok {
+					return genericName(replaceIdent(f.FullName(), f.Name(), alias))
+				}
 				return genericName(f.FullName())
 			}
 		}
 		// instantiations: collapse type arguments so that rules are not sensitive to them
-		return genericName(fn.String())
+		return genericName(canonFnString(fn))
 	}
 	if b, ok := cc.Value.(*ssa.Builtin); ok {
 		return b.Name()
